@@ -3,6 +3,7 @@
 """
 
 import itertools
+import os
 from operator import itemgetter
 
 import numpy as np
@@ -12,6 +13,10 @@ from .auxiliary import _p_norm, union_crit_pairs
 from .base import PersLandscape
 
 __all__ = ["PersLandscapeExact"]
+
+# verification hook (active only when PERSIM_VERIF=1): records each firing of the
+# repeated-bar shortcut in compute_landscape as ("dup_shortcut", number_of_copies)
+_verif_trace = []
 
 
 class PersLandscapeExact(PersLandscape):
@@ -302,6 +307,8 @@ class PersLandscapeExact(PersLandscape):
                     for _ in range(duplicate):
                         L.append(L[-1])
                         landscape_idx += 1
+                    if duplicate > 0 and os.environ.get("PERSIM_VERIF") == "1":
+                        _verif_trace.append(("dup_shortcut", duplicate))
 
                 else:
                     # set (b', d')  to be the first term so that d' > d
